@@ -989,6 +989,15 @@ def obj_attr(interp, o: ObjV, name: str, node) -> Optional[V]:
             return TupleV([Num(e) for e in o.attrs["dims"].items_p])
         if name == "T":
             return Term("T", [Term("ndarray", [Const(o.uid)], {"arr": o})])
+    if isinstance(o.ext, str) and o.ext.startswith("scipy.spatial.") and isinstance(o.origin, Term) and o.origin.args:
+        # qhull objects: the input point set is kept; its size is the number of input points (one Voronoi region / hull point each)
+        pts = o.origin.args[0]
+        if name == "points":
+            return pts
+        if name == "npoints":
+            n = value_len(pts)
+            if n is not None:
+                return Num(n)
     return None
 
 
